@@ -98,7 +98,7 @@ class CheckedMH(MH):
         return super().step()
 
 
-def hybrid_sweep(c, k=2, steps=(1, 2, 1, 3), with_real_mh=False, nuts_block=False):
+def hybrid_sweep(c, k=2, steps=(1, 2, 1, 3), with_real_mh=False, nuts_block=False, steps_arg='joint_order'):
     names = ['a', 'b', 'cc', 'd'][:k]
     dims = {n: (2 if i % 2 == 0 else 1) for i, n in enumerate(names)}
     J = StubJoint(c, dims)
@@ -108,7 +108,12 @@ def hybrid_sweep(c, k=2, steps=(1, 2, 1, 3), with_real_mh=False, nuts_block=Fals
     if with_real_mh:
         samplers[names[-1]] = CheckedMH(initial_point=init[names[-1]], scale=c.real('scale', pos=True))
     nsteps = {n: steps[i] for i, n in enumerate(names)}
-    G = HybridGibbs(J, samplers, nsteps)
+    # the configured numbers of transitions are given BY NAME: the order of the dictionary, or leaving blocks out (default 1), is immaterial
+    if steps_arg == 'reversed': arg = dict(reversed(list(nsteps.items())))
+    elif steps_arg == 'partial':
+        arg = {names[-1]: nsteps[names[-1]]}; nsteps = {n: (nsteps[n] if n == names[-1] else 1) for n in names}
+    else: arg = nsteps
+    G = HybridGibbs(J, samplers, arg)
     c.holds('initial_current_samples_are_the_samplers_initial_points', all(G.current_samples[n] is init[n] or np.all(G.current_samples[n] == init[n]) for n in names))
     # arbitrary state at the start of a sweep (invariant: every sampler sits at its block's current value)
     cur = {n: c.vec(f'cur_{n}', dims[n]) for n in names}
@@ -244,6 +249,8 @@ def jobs(tier):
     for k in ((2, 3) if q else (2, 3, 4)):
         for steps in ((1, 1, 1, 1), (2, 1, 3, 2)):
             J.append(Job(f'HybridGibbs.sweep:blocks={k}:steps={"-".join(map(str, steps[:k]))}', lambda c, k=k, s=steps: hybrid_sweep(c, k, s), 'Pbox', HG, maxpaths=64))
+    for sa in ('reversed', 'partial'):
+        J.append(Job(f'HybridGibbs.sweep:blocks=3:steps=2-1-3:num_sampling_steps_{sa}', lambda c, sa=sa: hybrid_sweep(c, 3, (2, 1, 3, 2), False, False, sa), 'Pbox', HG, maxpaths=64))
     J.append(Job('HybridGibbs.sweep:real_MH_block:blocks=2', lambda c: hybrid_sweep(c, 2, (1, 2), True), 'Pbox', HG + ['cuqi.experimental.mcmc._mh:MH.step'], maxpaths=256))
     J.append(Job('HybridGibbs.sweep:NUTS_typed_block:blocks=2', lambda c: hybrid_sweep(c, 2, (2, 1), False, True), 'Pbox', HG, maxpaths=64))
     J.append(Job('HybridGibbs:continuation_and_warmup', hybrid_continue, 'Pbox', HG + ['cuqi.experimental.mcmc._gibbs:HybridGibbs.sample', 'cuqi.experimental.mcmc._gibbs:HybridGibbs.warmup']))
